@@ -33,7 +33,7 @@ var c05Kinds = []string{
 	bhCorrect, bhCorrect, bhCorrect, bhCorrect, bhShift, bhShift, bhShiftInside, bhShiftInside, bhRepeatPrev, bhReorder, bhForged, bhWrongChain, bhNoChain, bhBadValidate,
 	bhGarbage, bhUnknownCode, bhUnknownBody, bhNotFound, bhEmpty, bhShortPrefix, bhOverlap, bhMore, bhHang, bhReset, bhRawGarbage,
 	bhDupInside, bhGapInside, bhTruncated, bhOversized, bhNilBodyOK, bhInvalidCode,
-	bhPanicValidate, bhPanicVerify, bhPanicDecode,
+	bhPanicValidate, bhPanicVerify, bhPanicDecode, bhBadValidateChain, bhBadValidateChain,
 }
 
 func genC05(t *rapid.T) C05Scenario {
